@@ -7,7 +7,7 @@ from decimal import Decimal
 from time import perf_counter
 from typing import TYPE_CHECKING, Dict, List, Optional, Sequence, Set, Type, Union
 
-from rdflib import BNode, IdentifiedNode, Literal, URIRef
+from rdflib import BNode, IdentifiedNode, Literal, URIRef, Variable
 
 from .consts import (
     RDF_type,
@@ -278,6 +278,11 @@ class Shape(object):
             has_fnname = len(fn_names) > 0
             is_types = set(self.sg.objects(c, RDF_type))
             if has_select or (SH_SPARQLTarget in is_types):
+                if not has_select:
+                    raise ShapeLoadError(
+                        "A sh:SPARQLTarget must have a value for sh:select.",
+                        "https://www.w3.org/TR/shacl-af/#SPARQLTarget",
+                    )
                 ct['type'] = SH_SPARQLTarget
                 SPARQLQueryHelper = get_query_helper_cls()
                 qh = SPARQLQueryHelper(self, c, selects[0], deactivated=self._deactivated)
@@ -295,7 +300,7 @@ class Shape(object):
                     ct['targeter'] = JST(self.sg, c)
                 else:
                     #  Found JSTarget, but JS is not enabled in PySHACL. Ignore this target.
-                    pass
+                    continue
             else:
                 found_tt = None
                 for t in is_types:
@@ -370,9 +375,15 @@ class Shape(object):
                     )
                     if not results or len(results.bindings) < 1:
                         continue
+                    if Variable('this') not in (results.vars or []):
+                        raise ShapeLoadError(
+                            "The sh:select of a SPARQL target must project the variable ?this.",
+                            "https://www.w3.org/TR/shacl-af/#SPARQLTarget",
+                        )
                     for r in results:
                         t = r['this']
-                        found_node_targets.add(t)
+                        if t is not None:
+                            found_node_targets.add(t)
                 elif at['type'] in (SH_JSTarget, SH_JSTargetType):
                     results = at['targeter'].find_targets(data_graph)
                     for r in results:
@@ -381,9 +392,15 @@ class Shape(object):
                     results = at['qt'].find_targets(data_graph)
                     if not results or len(results.bindings) < 1:
                         continue
+                    if Variable('this') not in (results.vars or []):
+                        raise ShapeLoadError(
+                            "The sh:select of a SPARQL target type must project the variable ?this.",
+                            "https://www.w3.org/TR/shacl-af/#SPARQLTargetType",
+                        )
                     for r in results:
                         t = r['this']
-                        found_node_targets.add(t)
+                        if t is not None:
+                            found_node_targets.add(t)
         if debug:
             t2 = perf_counter()
             elapsed = t2 - t1
@@ -521,9 +538,15 @@ class Shape(object):
                     )
                     if not results or len(results.bindings) < 1:
                         continue
+                    if Variable('this') not in (results.vars or []):
+                        raise ShapeLoadError(
+                            "The sh:select of a SPARQL target must project the variable ?this.",
+                            "https://www.w3.org/TR/shacl-af/#SPARQLTarget",
+                        )
                     for r in results:
                         t = r['this']
-                        found_node_targets.add(t)
+                        if t is not None:
+                            found_node_targets.add(t)
                 elif at['type'] in (SH_JSTarget, SH_JSTargetType):
                     raise ReportableRuntimeError(
                         "SHACL Advanced Targets with JSTargets are not yet implemented in SPARQL Remote Graph Mode."
@@ -532,9 +555,15 @@ class Shape(object):
                     results = at['qt'].find_targets(data_graph)
                     if not results or len(results.bindings) < 1:
                         continue
+                    if Variable('this') not in (results.vars or []):
+                        raise ShapeLoadError(
+                            "The sh:select of a SPARQL target type must project the variable ?this.",
+                            "https://www.w3.org/TR/shacl-af/#SPARQLTargetType",
+                        )
                     for r in results:
                         t = r['this']
-                        found_node_targets.add(t)
+                        if t is not None:
+                            found_node_targets.add(t)
         if debug:
             t2 = perf_counter()
             elapsed = t2 - t1
